@@ -2234,9 +2234,28 @@ def _abstract_comprehension(fr, frame, elt, gen, seq):
     # j is a fresh name for an arbitrary position of the (non-empty) sequence
     ctx.assume(And(0 <= j, j < seq.count))
     saved = dict(frame.env)
+
+    def fingerprint():
+        # observable effects of evaluating the element once: events, stores, generator / ghost state
+        # (calls of assumed pure callables only append to the event log: not an effect; an unseeded random
+        # source is one - every element would draw afresh)
+        fp = [sum(1 for e_ in ctx.events if e_ and e_[0] == 'unseeded_random_source'), getattr(ctx, 'nwrites', 0),
+              repr(sorted((k, str(v)) for k, v in ctx.ghost.items() if not isinstance(v, dict) and k != 'last_model_call'))]
+        for k_, v_ in saved.items():
+            if isinstance(v_, Opaque):
+                fp.append((k_, repr(sorted((a_, str(x_)) for a_, x_ in v_.attrs.items() if not callable(x_) and not isinstance(x_, (Tn, Opaque, dict, list))))))
+            elif isinstance(v_, list):
+                fp.append((k_, len(v_)))
+            elif isinstance(v_, (CatList, StackList)):
+                fp.append((k_, str(v_.count)))
+        return fp
+    fp0 = fingerprint()
     try:
         frame.assign(gen.target, seq.item(j))
         v = frame.ev(elt)
+        if fingerprint() != fp0:
+            # one symbolic evaluation stands for every element only if evaluating it changes nothing else
+            raise Unsupported("comprehension element has side effects (random draws, stores, calls of assumed callables)")
     finally:
         for k in list(frame.env.keys()):
             if k not in saved:
